@@ -3,8 +3,16 @@
 //! and `store_replicated_in_record` (read from the match arms), which checks
 //! `payment_for_us_exists_and_is_still_valid` performs and in which order, and the comparators /
 //! filters of the per-kind store functions.
+//!
+//! Every generated flag is two-sided: `true` only when the checked shape is positively recognised, `false`
+//! only when a known alternative shape is positively recognised, anything else is `Err(..)` (UNTRANSLATABLE;
+//! the check then falls back to the committed snapshot and a wider correspondence run).  Recognition works
+//! on a canonical text of the function body (token stream, spaces only between words, log macros removed,
+//! same-file private helpers inlined one level) and follows the data flow through `let` bindings and
+//! parameter names instead of relying on the names of locals.
 use crate::util::*;
 use quote::ToTokens;
+use regex::Regex;
 use std::path::PathBuf;
 
 fn toks<T: ToTokens>(t: &T) -> String {
@@ -43,8 +51,230 @@ fn pat_kinds(p: &syn::Pat, out: &mut Vec<String>) -> Result<(), String> {
     }
 }
 
-/// the `match record_header.kind { .. }` of a routing function: (kind name, arm body tokens)
-fn arms(f: &syn::ImplItemFn) -> Result<Vec<(String, String)>, String> {
+
+// ------------------------------------------------------------------------------------------------
+// canonical text
+// ------------------------------------------------------------------------------------------------
+
+fn is_word(c: char) -> bool {
+    c.is_alphanumeric() || c == '_' || c == '"'
+}
+
+/// token stream text with spaces kept only between two word-like tokens
+fn compact(s: &str) -> String {
+    let cs: Vec<char> = s.chars().collect();
+    let mut out = String::with_capacity(cs.len());
+    for (i, c) in cs.iter().enumerate() {
+        if c.is_whitespace() {
+            let prev = out.chars().last();
+            let next = cs[i + 1..].iter().find(|x| !x.is_whitespace());
+            if let (Some(p), Some(n)) = (prev, next) {
+                if is_word(p) && is_word(*n) {
+                    out.push(' ');
+                }
+            }
+        } else {
+            out.push(*c);
+        }
+    }
+    out
+}
+
+/// remove `debug!(..)`, `info!(..)`, `warn!(..)`, `error!(..)`, `trace!(..)` (and a following `;`)
+fn strip_logs(s: &str) -> String {
+    let re = Regex::new(r"\b(debug|info|warn|error|trace)!\(").expect("re");
+    let mut out = String::new();
+    let mut rest = s;
+    while let Some(m) = re.find(rest) {
+        out.push_str(&rest[..m.start()]);
+        // skip to the matching parenthesis, honouring string literals
+        let bytes: Vec<char> = rest[m.end()..].chars().collect();
+        let mut depth = 1usize;
+        let mut i = 0usize;
+        let mut in_str = false;
+        while i < bytes.len() && depth > 0 {
+            let c = bytes[i];
+            if in_str {
+                if c == '\\' {
+                    i += 1;
+                } else if c == '"' {
+                    in_str = false;
+                }
+            } else if c == '"' {
+                in_str = true;
+            } else if c == '(' {
+                depth += 1;
+            } else if c == ')' {
+                depth -= 1;
+            }
+            i += 1;
+        }
+        let consumed: usize = bytes[..i].iter().map(|c| c.len_utf8()).sum();
+        rest = &rest[m.end() + consumed..];
+        if let Some(r) = rest.strip_prefix(';') {
+            rest = r;
+        }
+    }
+    out.push_str(rest);
+    out
+}
+
+fn text_of<T: ToTokens>(t: &T) -> String {
+    let s = strip_logs(&compact(&toks(t)));
+    if std::env::var("RS2LEAN_DEBUG").is_ok() {
+        eprintln!("TEXT {s}");
+    }
+    s
+}
+
+/// names of the typed (non-self) parameters
+fn params(f: &syn::ImplItemFn) -> Vec<String> {
+    sig_params(&f.sig)
+}
+fn sig_params(sig: &syn::Signature) -> Vec<String> {
+    sig.inputs
+        .iter()
+        .filter_map(|a| match a {
+            syn::FnArg::Typed(t) => match &*t.pat {
+                syn::Pat::Ident(i) => Some(i.ident.to_string()),
+                _ => None,
+            },
+            _ => None,
+        })
+        .collect()
+}
+
+/// functions analysed on their own (never inlined into a caller)
+const ANALYSED: [&str; 10] = [
+    "validate_key_and_existence",
+    "payment_for_us_exists_and_is_still_valid",
+    "store_chunk",
+    "validate_and_store_scratchpad_record",
+    "validate_merge_and_store_transactions",
+    "validate_and_store_register",
+    "register_validation",
+    "get_local_transactions",
+    "validate_and_store_record",
+    "store_replicated_in_record",
+];
+
+/// inline (one level) calls of private helpers defined in the same file: `self.h(..)` / `Self::h(..)` becomes
+/// `self.h⟦<body of h>⟧(..)`
+fn inline_helpers(file: &syn::File, text: &str) -> String {
+    let re = Regex::new(r"(?:self\.|Self::)(\w+)\(").expect("re");
+    let mut out = String::new();
+    let mut last = 0;
+    for c in re.captures_iter(text) {
+        let m = c.get(0).expect("m");
+        let name = &c[1];
+        out.push_str(&text[last..m.end() - 1]);
+        if !ANALYSED.contains(&name) {
+            if let Ok(h) = impl_fn(file, "Node", None, name) {
+                out.push('⟦');
+                out.push_str(&text_of(&h.block));
+                out.push('⟧');
+            }
+        }
+        out.push('(');
+        last = m.end();
+    }
+    out.push_str(&text[last..]);
+    out
+}
+
+/// strip reference / dereference sigils
+fn bare(x: &str) -> &str {
+    x.trim_start_matches(['&', '*'])
+}
+
+/// what a local is bound to: `let [mut] x [: T] = E;` (first binding), followed through up to three levels
+fn resolve(text: &str, x: &str) -> String {
+    let mut cur = bare(x).to_string();
+    for _ in 0..3 {
+        if !cur.chars().all(|c| c.is_alphanumeric() || c == '_') {
+            break;
+        }
+        let re = Regex::new(&format!(r"let (?:mut )?{}(?::[^=;]+)?=([^;]+);", regex::escape(&cur))).expect("re");
+        match re.captures(text) {
+            Some(c) => cur = bare(&c[1]).to_string(),
+            None => break,
+        }
+    }
+    cur
+}
+
+/// binary comparisons between simple operands (paths, field accesses, nullary method calls)
+fn comparisons(text: &str) -> Vec<(String, String, String, usize, usize)> {
+    let re = Regex::new(r"([&*]?[A-Za-z_][\w.]*(?:\(\))?(?:\.\w+\(\))?)(==|!=|>=|<=|>|<)([&*]?[A-Za-z_][\w.]*(?:\(\))?(?:\.\w+\(\))?)").expect("re");
+    let mut v = vec![];
+    let mut at = 0;
+    while let Some(c) = re.captures_at(text, at) {
+        let m = c.get(0).expect("m");
+        v.push((c[1].to_string(), c[2].to_string(), c[3].to_string(), m.start(), m.end()));
+        at = m.end();
+    }
+    v
+}
+
+/// the `{..}` block that starts at or after `from`
+fn block_after(text: &str, from: usize) -> &str {
+    let Some(open) = text[from..].find('{') else { return "" };
+    let start = from + open;
+    let mut depth = 0usize;
+    for (i, c) in text[start..].char_indices() {
+        if c == '{' {
+            depth += 1;
+        } else if c == '}' {
+            depth -= 1;
+            if depth == 0 {
+                return &text[start..start + i + 1];
+            }
+        }
+    }
+    ""
+}
+
+fn flip(op: &str) -> &'static str {
+    match op {
+        ">=" => "<=",
+        "<=" => ">=",
+        ">" => "<",
+        "<" => ">",
+        "==" => "==",
+        _ => "!=",
+    }
+}
+
+/// `if <presented> != <local bound to ..to_record_key()> { .. RecordKeyMismatch .. }`
+///   true: recognised; false: the text neither compares `presented` nor mentions RecordKeyMismatch; else Err
+fn key_check(what: &str, text: &str, presented: &str) -> Result<(bool, usize), String> {
+    let mut found = None;
+    let mut any_cmp = false;
+    for (l, op, r, s, e) in comparisons(text) {
+        let (other, hit) = if bare(&l) == presented {
+            (r.clone(), true)
+        } else if bare(&r) == presented {
+            (l.clone(), true)
+        } else {
+            (String::new(), false)
+        };
+        if !hit {
+            continue;
+        }
+        any_cmp = true;
+        if op == "!=" && resolve(text, &other).contains("to_record_key()") && block_after(text, e).contains("RecordKeyMismatch") && (text[..s].ends_with("if ") || text[..s].ends_with("if")) {
+            found = Some(s);
+        }
+    }
+    match (found, any_cmp, text.contains("RecordKeyMismatch")) {
+        (Some(p), _, _) => Ok((true, p)),
+        (None, false, false) => Ok((false, 0)),
+        _ => Err(format!("{what}: key comparison with `{presented}` has an unrecognised shape")),
+    }
+}
+
+/// the `match record_header.kind { .. }` of a routing function: (kind name, canonical arm body with helpers inlined)
+fn arms(file: &syn::File, f: &syn::ImplItemFn) -> Result<Vec<(String, String)>, String> {
     struct Find<'a>(Option<&'a syn::ExprMatch>);
     impl<'ast> syn::visit::Visit<'ast> for Find<'ast> {
         fn visit_expr_match(&mut self, m: &'ast syn::ExprMatch) {
@@ -64,7 +294,7 @@ fn arms(f: &syn::ImplItemFn) -> Result<Vec<(String, String)>, String> {
         }
         let mut ks = vec![];
         pat_kinds(&a.pat, &mut ks)?;
-        let body = toks(&a.body);
+        let body = inline_helpers(file, &text_of(&a.body));
         for k in ks {
             v.push((k, body.clone()));
         }
@@ -82,11 +312,11 @@ fn has(body: &str, needle: &str) -> bool {
 }
 
 fn branch_of(client: bool, kind: &str, body: &str) -> Result<&'static str, String> {
-    let pay = has(body, "payment_for_us_exists_and_is_still_valid");
-    let chunk = has(body, "store_chunk");
-    let pad = has(body, "validate_and_store_scratchpad_record");
-    let tx = has(body, "validate_merge_and_store_transactions");
-    let reg = has(body, "validate_and_store_register");
+    let pay = has(body, "payment_for_us_exists_and_is_still_valid(");
+    let chunk = has(body, "store_chunk(");
+    let pad = has(body, "validate_and_store_scratchpad_record(");
+    let tx = has(body, "validate_merge_and_store_transactions(");
+    let reg = has(body, "validate_and_store_register(");
     let unpaid_err = has(body, "InvalidPutWithoutPayment");
     let unexpected = has(body, "UnexpectedRecordWithPayment");
     let stores = [chunk, pad, tx, reg].iter().filter(|b| **b).count();
@@ -107,7 +337,6 @@ fn branch_of(client: bool, kind: &str, body: &str) -> Result<&'static str, Strin
     };
     Ok(b)
 }
-
 
 /// libp2p-kad's `K_VALUE` (version from Cargo.lock, source from the cargo registry)
 fn k_value(repo: &PathBuf) -> Result<u128, String> {
@@ -155,37 +384,189 @@ fn k_value(repo: &PathBuf) -> Result<u128, String> {
     Err("K_VALUE not found in libp2p-kad".into())
 }
 
-/// in `verify_for`: the `match encoded_peer_id.to_peer_id()` must leave the function with `false` in every
-/// arm that is not `Ok(..)` (an undecodable claimed id cannot be signature-checked, so the proof is refused)
-fn undecodable_id_refused(f: &syn::ImplItemFn) -> bool {
-    struct Find {
-        seen: bool,
-        ok: bool,
+
+/// `ProofOfPayment::verify_for`:
+///   true  — this node must be among the payees, and every quote is checked against the peer decoded from its
+///           claimed id, an undecodable id failing the whole proof (for-loop with early `return false`, or `.all(..)`);
+///   false — a known weaker shape: no payee test, or an undecodable id is skipped (`continue` / `true`);
+///   Err   — anything else.
+fn verify_for_shape(f: &syn::ImplItemFn) -> Result<bool, String> {
+    let text = text_of(&f.block);
+    let ps = params(f);
+    let p = ps.first().ok_or("verify_for: no parameter")?;
+    let payee_test = text.contains(&format!("if!self.payees().contains(&{p}){{return false;}}"));
+    if!payee_test && text.contains("payees()") {
+        return Err("verify_for: payee test has an unrecognised shape".into());
     }
-    impl<'ast> syn::visit::Visit<'ast> for Find {
+    // the match on `..to_peer_id()`
+    struct Find<'a>(Option<&'a syn::ExprMatch>);
+    impl<'ast> syn::visit::Visit<'ast> for Find<'ast> {
         fn visit_expr_match(&mut self, m: &'ast syn::ExprMatch) {
-            if toks(&m.expr).contains("to_peer_id") {
-                self.seen = true;
-                for a in &m.arms {
-                    let pat = toks(&a.pat);
-                    if pat.starts_with("Ok") {
-                        continue;
-                    }
-                    if !toks(&a.body).contains("return false") {
-                        self.ok = false;
-                    }
-                }
+            if self.0.is_none() && toks(&m.expr).contains("to_peer_id") {
+                self.0 = Some(m);
             }
             syn::visit::visit_expr_match(self, m);
         }
     }
-    let mut fnd = Find { seen: false, ok: true };
+    let mut fnd = Find(None);
     syn::visit::Visit::visit_block(&mut fnd, &f.block);
-    fnd.seen && fnd.ok
+    let m = fnd.0.ok_or("verify_for: no `match ..to_peer_id()`")?;
+    let mut ok_binding = None;
+    let mut ok_body = String::new();
+    let mut other_bodies = vec![];
+    for a in &m.arms {
+        let pat = compact(&toks(&a.pat));
+        if let Some(c) = Regex::new(r"^Ok\((\w+)\)$").expect("re").captures(&pat) {
+            ok_binding = Some(c[1].to_string());
+            ok_body = text_of(&a.body);
+        } else {
+            other_bodies.push(text_of(&a.body));
+        }
+    }
+    let okb = ok_binding.ok_or("verify_for: no `Ok(x)` arm")?;
+    if other_bodies.is_empty() {
+        return Err("verify_for: no arm for an undecodable id".into());
+    }
+    let skipped = other_bodies.iter().any(|b| matches!(b.as_str(), "{continue;}" | "continue" | "{continue}" | "true" | "{true}"));
+    // shape A: for-loop; the match yields the decoded peer, every other arm leaves with false
+    let for_re = Regex::new(r"for\((\w+),(\w+)\)in self\.peer_quotes\.iter\(\)\{").expect("re");
+    if let Some(c) = for_re.captures(&text) {
+        let q = c[2].to_string();
+        let bind_re = Regex::new(&format!(r"let (\w+)=match {}\.to_peer_id\(\)", regex::escape(&c[1]))).expect("re");
+        let bound = bind_re.captures(&text).map(|c| c[1].to_string());
+        let decoded_ok = ok_body == okb;
+        let sig_ok = bound.as_ref().map(|b| text.contains(&format!("if!{q}.check_is_signed_by_claimed_peer({b}){{return false;}}"))).unwrap_or(false);
+        let ends_true = text.ends_with("}true}");
+        if decoded_ok && sig_ok && ends_true {
+            if other_bodies.iter().all(|b| b == "{return false;}" || b == "return false") {
+                return Ok(payee_test);
+            }
+            if skipped {
+                return Ok(false);
+            }
+        }
+        return Err("verify_for: for-loop shape not recognised".into());
+    }
+    // shape B: `.all(|(id, quote)| match id.to_peer_id() { Ok(p) => quote.check..(p), Err(_) => false })`
+    let all_re = Regex::new(r"self\.peer_quotes\.iter\(\)\.all\(\|\((\w+),(\w+)\)\|match (\w+)\.to_peer_id\(\)").expect("re");
+    if let Some(c) = all_re.captures(&text) {
+        let q = c[2].to_string();
+        if c[1] == c[3] && ok_body == format!("{q}.check_is_signed_by_claimed_peer({okb})") {
+            if other_bodies.iter().all(|b| b == "{false}" || b == "false") {
+                return Ok(payee_test);
+            }
+            if skipped {
+                return Ok(false);
+            }
+        }
+        return Err("verify_for: `.all(..)` shape not recognised".into());
+    }
+    Err("verify_for: neither the for-loop nor the `.all(..)` shape".into())
 }
 
 fn first_pos(body: &str, needles: &[&str]) -> Option<usize> {
     needles.iter().filter_map(|n| body.find(n)).min()
+}
+
+/// the checks of `payment_for_us_exists_and_is_still_valid` in source order (helpers inlined)
+fn pay_steps(file: &syn::File, f: &syn::ImplItemFn) -> Result<Vec<&'static str>, String> {
+    let t = inline_helpers(file, &text_of(&f.block));
+    let w = "payment_for_us_exists_and_is_still_valid";
+    let mut steps: Vec<(usize, &'static str)> = vec![];
+    // forUs
+    if t.contains("verify_for") {
+        let re = Regex::new(r"if!\w+\.verify_for\(\w+\)").expect("re");
+        let m = re.find(&t).ok_or(format!("{w}: verify_for call has an unrecognised shape"))?;
+        if!block_after(&t, m.end()).contains("return Err(") {
+            return Err(format!("{w}: a failing verify_for does not return an error"));
+        }
+        steps.push((m.start(), "forUs"));
+    }
+    // content
+    let mentions_content = t.contains("InvalidQuoteContent") || t.contains(".content");
+    if mentions_content {
+        let any_form = Regex::new(r"if \w+\.quotes_by_peer\(&?\w+\)\.iter\(\)\.any\(\|(\w+)\|(\w+)\.content!=(\w+)\)\{").expect("re");
+        let all_form = Regex::new(r"if!(?:Self::|self\.)\w+⟦[^⟧]*\.quotes_by_peer\(&?\w+\)\.iter\(\)\.all\(\|(\w+)\|(\w+)\.content==(\w+)\)\}?⟧\([^)]*\)\{").expect("re");
+        let all_inline = Regex::new(r"if!\w+\.quotes_by_peer\(&?\w+\)\.iter\(\)\.all\(\|(\w+)\|(\w+)\.content==(\w+)\)\{").expect("re");
+        let hit = [&any_form, &all_form, &all_inline].iter().find_map(|re| re.captures(&t).map(|c| (c.get(0).expect("m").start(), c.get(0).expect("m").end(), c[1].to_string(), c[2].to_string(), c[3].to_string())));
+        let (s, e, a, b, other) = hit.ok_or(format!("{w}: quote content check has an unrecognised shape"))?;
+        if a != b || !resolve(&t, &other).contains("as_xorname()") || !block_after(&t, e - 1).contains("return Err(Error::InvalidQuoteContent)") {
+            return Err(format!("{w}: quote content is not compared with the address being stored"));
+        }
+        steps.push((s, "content"));
+    }
+    // expiry
+    if t.contains("has_expired") {
+        let re = Regex::new(r"if \w+\.has_expired\(\)").expect("re");
+        let m = re.find(&t).ok_or(format!("{w}: has_expired call has an unrecognised shape"))?;
+        if!block_after(&t, m.end()).contains("return Err(") {
+            return Err(format!("{w}: an expired proof does not return an error"));
+        }
+        steps.push((m.start(), "expiry"));
+    }
+    // close
+    if t.contains("get_closest_k_value_local_peers") {
+        let re = Regex::new(r"let (\w+)=self\.network\(\)\.get_closest_k_value_local_peers\(\)\.await\?;").expect("re");
+        let c = re.captures(&t).ok_or(format!("{w}: closest peers are fetched in an unrecognised way"))?;
+        let cv = c[1].to_string();
+        let pos = c.get(0).expect("m").start();
+        let filtered = Regex::new(&format!(r"\.(?:retain|filter)\(\|(\w+)\|!{}\.contains\((\w+)\)\)", regex::escape(&cv)))
+            .expect("re")
+            .captures(&t)
+            .map(|c| c[1] == c[2])
+            .unwrap_or(false);
+        let rejects = Regex::new(r"if!\w+\.is_empty\(\)\{return Err\(Error::InvalidRequest\(").expect("re").is_match(&t)
+            || Regex::new(r"if \w+\.is_empty\(\)\{return Ok\(\(\)\);\}Err\(Error::InvalidRequest\(").expect("re").is_match(&t);
+        if!(filtered && rejects && t.contains(".payees()")) {
+            return Err(format!("{w}: payee closeness test has an unrecognised shape"));
+        }
+        // a helper returning Result must be propagated
+        if t[..pos].ends_with('⟦') && !Regex::new(r"⟧\([^)]*\)\.await\?;").expect("re").is_match(&t[pos..]) {
+            return Err(format!("{w}: result of the closeness helper is not propagated"));
+        }
+        steps.push((pos, "close"));
+    }
+    // chain
+    if t.contains("verify_data_payment") {
+        let re = Regex::new(r"verify_data_payment\([^;]*\)\.await\.map_err\([^;]*\)\?;").expect("re");
+        let m = re.find(&t).ok_or(format!("{w}: verify_data_payment result is not propagated in the recognised way"))?;
+        steps.push((m.start(), "chain"));
+        match t.find("notify_payment_received()") {
+            Some(p) if p > m.start() => {}
+            _ => return Err(format!("{w}: no notify_payment_received after the on-chain check")),
+        }
+    } else if!t.contains("notify_payment_received()") {
+        return Err(format!("{w}: no notify_payment_received"));
+    }
+    steps.sort();
+    Ok(steps.into_iter().map(|(_, n)| n).collect())
+}
+
+/// comparison of the stored and the incoming scratchpad counter, normalised to `stored OP incoming`
+fn pad_counter_cmp(f: &syn::ImplItemFn) -> Result<bool, String> {
+    let t = text_of(&f.block);
+    let incoming = params(f).first().cloned().ok_or("scratchpad fn: no parameter")?;
+    let cnt = Regex::new(r"^(\w+)\.count\(\)$").expect("re");
+    let mut hits = vec![];
+    for (l, op, r, _s, e) in comparisons(&t) {
+        let (rl, rr) = (resolve(&t, &l), resolve(&t, &r));
+        if let (Some(a), Some(b)) = (cnt.captures(&rl), cnt.captures(&rr)) {
+            let (a, b) = (a[1].to_string(), b[1].to_string());
+            let op = if a != incoming && b == incoming {
+                op.clone()
+            } else if a == incoming && b != incoming {
+                flip(&op).to_string()
+            } else {
+                return Err("validate_and_store_scratchpad_record: counter comparison not between stored and incoming".into());
+            };
+            hits.push((op, block_after(&t, e).contains("IgnoringOutdatedScratchpadPut")));
+        }
+    }
+    match hits.as_slice() {
+        [(op, true)] if op == ">=" => Ok(true),
+        [(op, true)] if op == ">" => Ok(false),
+        _ => Err("validate_and_store_scratchpad_record: counter comparison not recognised".into()),
+    }
 }
 
 pub fn generate(repo: &PathBuf) -> Result<String, String> {
@@ -193,8 +574,8 @@ pub fn generate(repo: &PathBuf) -> Result<String, String> {
     let file = parse_file(&repo.join(rel))?;
     let client = impl_fn(&file, "Node", None, "validate_and_store_record")?;
     let repl = impl_fn(&file, "Node", None, "store_replicated_in_record")?;
-    let carms = arms(client)?;
-    let rarms = arms(repl)?;
+    let carms = arms(&file, client)?;
+    let rarms = arms(&file, repl)?;
 
     let mut s = header("ant-node/src/put_validation.rs, ant-evm/src/data_payments.rs, evmlib/src/contract/payment_vault/mod.rs, ant-networking/src/record_store.rs, ant-networking/src/driver.rs, ant-networking/src/cmd.rs");
     s.push_str("namespace SafeNet.Gen.Validate\n");
@@ -214,110 +595,181 @@ pub fn generate(repo: &PathBuf) -> Result<String, String> {
     route("replRoute", "`store_replicated_in_record`: kind → branch", &rarms, false)?;
 
     let arm = |arms: &[(String, String)], k: &str| arms.iter().find(|(n, _)| n == k).expect("checked").1.clone();
-    // explicit `record.key != key` checks in the arms that derive the key themselves
-    let explicit_key_check = |body: &str| has(body, "record . key != key") && has(body, "RecordKeyMismatch");
+    // explicit `record.key != <derived key>` checks in the arms that derive the key themselves
     let flags: Vec<(&str, &str, bool)> = vec![
-        ("regUpdateChecksKey", "client `Register` arm compares `record.key` with the derived key", explicit_key_check(&arm(&carms, "Register"))),
-        ("regPaidChecksKey", "client `RegisterWithPayment` arm compares `record.key` with the derived key", explicit_key_check(&arm(&carms, "RegisterWithPayment"))),
-        ("txPaidChecksKey", "client `TransactionWithPayment` arm compares `record.key` with the derived key", explicit_key_check(&arm(&carms, "TransactionWithPayment"))),
-        ("regReplChecksKey", "replication `Register` arm compares `record.key` with the derived key", explicit_key_check(&arm(&rarms, "Register"))),
+        ("regUpdateChecksKey", "client `Register` arm compares `record.key` with the derived key", key_check("client Register arm", &arm(&carms, "Register"), "record.key")?.0),
+        ("regPaidChecksKey", "client `RegisterWithPayment` arm compares `record.key` with the derived key", key_check("client RegisterWithPayment arm", &arm(&carms, "RegisterWithPayment"), "record.key")?.0),
+        ("txPaidChecksKey", "client `TransactionWithPayment` arm compares `record.key` with the derived key", key_check("client TransactionWithPayment arm", &arm(&carms, "TransactionWithPayment"), "record.key")?.0),
+        ("regReplChecksKey", "replication `Register` arm compares `record.key` with the derived key", key_check("replication Register arm", &arm(&rarms, "Register"), "record.key")?.0),
     ];
 
-    // validate_key_and_existence
-    let vke = toks(&impl_fn(&file, "Node", None, "validate_key_and_existence")?.block);
-    let vke_checks = has(&vke, "expected_record_key != & data_key") && has(&vke, "RecordKeyMismatch");
+    // validate_key_and_existence: the key comparison, and it must precede the existence short-circuit
+    let vke_fn = impl_fn(&file, "Node", None, "validate_key_and_existence")?;
+    let vke = text_of(&vke_fn.block);
+    let vke_params = params(vke_fn);
+    let presented = vke_params.get(1).ok_or("validate_key_and_existence: expected (address, expected_record_key)")?;
+    let (vke_checks, vke_pos) = key_check("validate_key_and_existence", &vke, presented)?;
+    if vke_checks {
+        match vke.find("is_record_key_present_locally(") {
+            Some(p) if p > vke_pos => {}
+            _ => return Err("validate_key_and_existence: the key comparison no longer precedes the existence test".into()),
+        }
+    }
 
     // payment_for_us_exists_and_is_still_valid: which checks, in source order
-    let pay = toks(&impl_fn(&file, "Node", None, "payment_for_us_exists_and_is_still_valid")?.block);
-    let mut steps: Vec<(usize, &str)> = vec![];
-    if let Some(p) = first_pos(&pay, &["verify_for"]) {
-        steps.push((p, "forUs"));
-    }
-    if let Some(p) = first_pos(&pay, &["InvalidQuoteContent"]) {
-        // the check must compare a quote's `content` with the address being stored
-        if !(has(&pay, ". content") && has(&pay, "as_xorname")) {
-            return Err("payment_for_us_exists_and_is_still_valid: InvalidQuoteContent without a content/address comparison".into());
-        }
-        steps.push((p, "content"));
-    }
-    if let Some(p) = first_pos(&pay, &["has_expired"]) {
-        steps.push((p, "expiry"));
-    }
-    if let Some(p) = first_pos(&pay, &["get_closest_k_value_local_peers"]) {
-        if !(has(&pay, "payees") && has(&pay, "contains")) {
-            return Err("payment_for_us_exists_and_is_still_valid: closest peers fetched but payees not compared".into());
-        }
-        steps.push((p, "close"));
-    }
-    if let Some(p) = first_pos(&pay, &["verify_data_payment"]) {
-        steps.push((p, "chain"));
-    }
-    steps.sort();
-    if !has(&pay, "notify_payment_received") {
-        return Err("payment_for_us_exists_and_is_still_valid: no notify_payment_received".into());
-    }
+    let steps = pay_steps(&file, impl_fn(&file, "Node", None, "payment_for_us_exists_and_is_still_valid")?)?;
 
     // scratchpad store function
-    let padf = toks(&impl_fn(&file, "Node", None, "validate_and_store_scratchpad_record")?.block);
-    let pad_rejects_equal = if has(&padf, "local_pad . count () >= scratchpad . count ()") {
-        true
-    } else if has(&padf, "local_pad . count () > scratchpad . count ()") {
-        false
-    } else {
-        return Err("validate_and_store_scratchpad_record: counter comparison not recognised".into());
+    let pad_fn = impl_fn(&file, "Node", None, "validate_and_store_scratchpad_record")?;
+    let padf = text_of(&pad_fn.block);
+    let pad_params = params(pad_fn);
+    let pad_in = pad_params.first().ok_or("validate_and_store_scratchpad_record: no parameter")?;
+    let pad_rejects_equal = pad_counter_cmp(pad_fn)?;
+    let pad_checks_sig = {
+        let re = Regex::new(&format!(r"if!{}\.is_valid\(\)", regex::escape(pad_in))).expect("re");
+        match re.find(&padf) {
+            Some(m) if block_after(&padf, m.end()).contains("return Err(Error::InvalidScratchpadSignature)") => true,
+            None if!padf.contains("is_valid") && !padf.contains("InvalidScratchpadSignature") => false,
+            _ => return Err("validate_and_store_scratchpad_record: signature check has an unrecognised shape".into()),
+        }
     };
-    let pad_checks_sig = has(&padf, "! scratchpad . is_valid ()") && has(&padf, "InvalidScratchpadSignature");
-    let pad_checks_key = has(&padf, "scratchpad_key != record_key") && has(&padf, "RecordKeyMismatch");
+    let pad_checks_key = key_check("validate_and_store_scratchpad_record", &padf, pad_params.get(1).ok_or("scratchpad fn: no record_key parameter")?)?.0;
 
     // transactions
-    let txf = toks(&impl_fn(&file, "Node", None, "validate_merge_and_store_transactions")?.block);
-    let tx_filters_foreign = has(&txf, "& transaction_record_key != record_key") && has(&txf, "return false");
-    let tx_filters_invalid = has(&txf, ". filter (| t | t . verify ())");
-    let tx_merges_local = has(&txf, "validated_transactions . extend (local_txs");
+    let tx_fn = impl_fn(&file, "Node", None, "validate_merge_and_store_transactions")?;
+    let txf = text_of(&tx_fn.block);
+    let tx_params = params(tx_fn);
+    let txk = tx_params.get(1).ok_or("validate_merge_and_store_transactions: no record_key parameter")?;
+    let tx_filters_foreign = {
+        let mut verdict: Option<bool> = None;
+        let mut any = false;
+        for (l, op, r, s0, e0) in comparisons(&txf) {
+            let other = if bare(&l) == txk { r.clone() } else if bare(&r) == txk { l.clone() } else { continue };
+            any = true;
+            if!resolve(&txf, &other).contains("to_record_key()") || !txf[..s0].contains(".filter(|") {
+                continue;
+            }
+            // (a) `if k != record_key { return false; } true`   (b) `let b = k == record_key; .. b` as the closure value
+            if op == "!=" && (txf[..s0].ends_with("if ") || txf[..s0].ends_with("if")) && block_after(&txf, e0) == "{return false;}" && txf[e0..].starts_with("{return false;}true})") {
+                verdict = Some(true);
+            }
+            if op == "==" {
+                if let Some(c) = Regex::new(r"let (\w+)=$").expect("re").captures(&txf[..s0]) {
+                    let b = c[1].to_string();
+                    if Regex::new(&format!(r"[;}}]{}\}}\)", regex::escape(&b))).expect("re").is_match(&txf[e0..]) {
+                        verdict = Some(true);
+                    }
+                }
+            }
+        }
+        match (verdict, any) {
+            (Some(v), _) => v,
+            (None, false) => false,
+            _ => return Err("validate_merge_and_store_transactions: filter on the record key has an unrecognised shape".into()),
+        }
+    };
+    let tx_filters_invalid = if Regex::new(r"\.filter\(\|(\w+)\|(\w+)\.verify\(\)\)").expect("re").captures(&txf).map(|c| c[1] == c[2]).unwrap_or(false) {
+        true
+    } else if!txf.contains(".verify()") {
+        false
+    } else {
+        return Err("validate_merge_and_store_transactions: signature filter has an unrecognised shape".into());
+    };
+    let tx_merges_local = match Regex::new(r"let (\w+)=self\.get_local_transactions\(\w+\)\.await\?;").expect("re").captures(&txf) {
+        Some(c) => {
+            let x = regex::escape(&c[1]);
+            if Regex::new(&format!(r"\w+\.extend\({x}(?:\.into_iter\(\))?\);")).expect("re").is_match(&txf) {
+                true
+            } else {
+                return Err("validate_merge_and_store_transactions: local transactions fetched but not merged in the recognised way".into());
+            }
+        }
+        None if!txf.contains("get_local_transactions") => false,
+        None => return Err("validate_merge_and_store_transactions: get_local_transactions call has an unrecognised shape".into()),
+    };
+    // the local copy must be of kind Transaction (a scratchpad of the same owner shares the key)
+    let glt = text_of(&impl_fn(&file, "Node", None, "get_local_transactions")?.block);
+    if!(glt.contains("RecordKindMismatch(RecordKind::Transaction)") && glt.contains("RecordHeader::from_record(") && glt.contains("RecordKind::Transaction")) {
+        return Err("get_local_transactions: the kind check of the local record has an unrecognised shape".into());
+    }
 
     // registers
-    let regf = toks(&impl_fn(&file, "Node", None, "register_validation")?.block);
-    let reg_verifies = has(&regf, "register . verify () ?");
-    let reg_verified_merge = has(&regf, "merged_register . verified_merge (register) ?");
+    let reg_fn = impl_fn(&file, "Node", None, "register_validation")?;
+    let regf = text_of(&reg_fn.block);
+    let reg_in = params(reg_fn).first().cloned().ok_or("register_validation: no parameter")?;
+    let reg_verifies = if regf.contains(&format!("{reg_in}.verify()?;")) {
+        true
+    } else if!regf.contains(".verify()") {
+        false
+    } else {
+        return Err("register_validation: verify call has an unrecognised shape".into());
+    };
+    let reg_verified_merge = if Regex::new(&format!(r"\w+\.verified_merge\({}\)\?;", regex::escape(&reg_in))).expect("re").is_match(&regf) {
+        true
+    } else if Regex::new(&format!(r"\w+\.merge\({}\)\?;", regex::escape(&reg_in))).expect("re").is_match(&regf) && !regf.contains("verified_merge") {
+        false
+    } else {
+        return Err("register_validation: merge with the local copy has an unrecognised shape".into());
+    };
 
     // evmlib verify_data_payment
     let ev = parse_file(&repo.join("evmlib/src/contract/payment_vault/mod.rs"))?;
-    let vdp = toks(&free_fn(&ev, "verify_data_payment")?.block);
-    // the `isValid` test must apply to every returned result, i.e. stand before (outside) the owned-hash branch
-    let chain_fails_on_invalid = match (
-        vdp.find("if ! payment_verification_result . isValid { return Err"),
-        vdp.find("if owned_quote_hashes . contains (& payment_verification_result . quoteHash)"),
-    ) {
+    let vdp_fn = free_fn(&ev, "verify_data_payment")?;
+    let vdp = text_of(&vdp_fn.block);
+    let owned = sig_params(&vdp_fn.sig).get(1).cloned().ok_or("verify_data_payment: no owned_quote_hashes parameter")?;
+    let lp = Regex::new(r"for (\w+) in \w+\{").expect("re").captures(&vdp).ok_or("verify_data_payment: no loop over the verification results")?;
+    let rv = regex::escape(&lp[1]);
+    let p_invalid = Regex::new(&format!(r"if!{rv}\.isValid\{{return Err\(")).expect("re").find(&vdp).map(|m| m.start());
+    let p_owned = Regex::new(&format!(r"{}\.contains\(&{rv}\.quoteHash\)", regex::escape(&owned))).expect("re").find(&vdp).map(|m| m.start());
+    let p_sum = Regex::new(&format!(r"\w+\+={rv}\.amountPaid;")).expect("re").find(&vdp).map(|m| m.start());
+    let chain_fails_on_invalid = match (p_invalid, p_owned) {
         (Some(v), Some(o)) => v < o,
         (Some(_), None) => true,
-        _ => false,
+        (None, _) if!vdp.contains("isValid") => false,
+        _ => return Err("verify_data_payment: validity test has an unrecognised shape".into()),
     };
-    let chain_sums_owned = has(&vdp, "owned_quote_hashes . contains (& payment_verification_result . quoteHash)") && has(&vdp, "amount +=");
+    let chain_sums_owned = match (p_owned, p_sum) {
+        (Some(o), Some(a)) if o < a => true,
+        (None, Some(_)) if!vdp.contains(".contains(") => false,
+        _ => return Err("verify_data_payment: summation over the owned quotes has an unrecognised shape".into()),
+    };
 
     // ant-evm: expiry
     let dp = parse_file(&repo.join("ant-evm/src/data_payments.rs"))?;
     let exp_secs = const_value(&dp, "QUOTE_EXPIRATION_SECS")?;
-    let he = toks(&impl_fn(&dp, "PaymentQuote", None, "has_expired")?.block);
-    let expiry_strict = if has(&he, "dur_s > QUOTE_EXPIRATION_SECS") {
+    let he = text_of(&impl_fn(&dp, "PaymentQuote", None, "has_expired")?.block);
+    let expiry_strict = {
+        let mut v = vec![];
+        for (l, op, r, _, _) in comparisons(&he) {
+            let (age, op) = if r == "QUOTE_EXPIRATION_SECS" { (l.clone(), op.clone()) } else if l == "QUOTE_EXPIRATION_SECS" { (r.clone(), flip(&op).to_string()) } else { continue };
+            // the compared value must be a number of seconds: `x.as_secs()` directly or through a binding
+            let secs = age.ends_with(".as_secs()") || Regex::new(&format!(r"let {}=match [^;]*\.as_secs\(\)", regex::escape(bare(&age)))).expect("re").is_match(&he) || resolve(&he, &age).ends_with(".as_secs()");
+            if !secs {
+                return Err("PaymentQuote::has_expired: compared value is not recognisably a number of seconds".into());
+            }
+            v.push(op);
+        }
+        match v.as_slice() {
+            [op] if op == ">" => true,
+            [op] if op == ">=" => false,
+            _ => return Err("PaymentQuote::has_expired: comparison not recognised".into()),
+        }
+    };
+    let pe = text_of(&impl_fn(&dp, "ProofOfPayment", None, "has_expired")?.block);
+    let proof_any_expired = if Regex::new(r"\.iter\(\)\.any\(\|\(_,(\w+)\)\|(\w+)\.has_expired\(\)\)").expect("re").captures(&pe).map(|c| c[1] == c[2]).unwrap_or(false) {
         true
-    } else if has(&he, "dur_s >= QUOTE_EXPIRATION_SECS") {
+    } else if Regex::new(r"\.iter\(\)\.all\(\|\(_,(\w+)\)\|(\w+)\.has_expired\(\)\)").expect("re").is_match(&pe) {
         false
     } else {
-        return Err("PaymentQuote::has_expired: comparison not recognised".into());
+        return Err("ProofOfPayment::has_expired: shape not recognised".into());
     };
-    let pe = toks(&impl_fn(&dp, "ProofOfPayment", None, "has_expired")?.block);
-    let proof_any_expired = has(&pe, ". any (");
-    let vf_fn = impl_fn(&dp, "ProofOfPayment", None, "verify_for")?;
-    let vf = toks(&vf_fn.block);
-    let verify_for_checks = has(&vf, "! self . payees () . contains (& peer_id)")
-        && has(&vf, "if ! quote . check_is_signed_by_claimed_peer (peer_id) { return false ; }")
-        && undecodable_id_refused(vf_fn);
+    let verify_for_checks = verify_for_shape(impl_fn(&dp, "ProofOfPayment", None, "verify_for")?)?;
 
     // ant-networking: the close set served to `GetClosestKLocalPeers`
     let kv = k_value(repo)?;
     let drv = parse_file(&repo.join("ant-networking/src/driver.rs"))?;
     let ck = toks(&impl_fn(&drv, "SwarmDriver", None, "get_closest_k_value_local_peers")?.block).replace(' ', "");
-    if !ck.contains("get_closest_local_peers(&self_peer_id)") {
+    if!ck.contains("get_closest_local_peers(&self_peer_id)") {
         return Err("get_closest_k_value_local_peers: peers no longer come from kademlia.get_closest_local_peers(self)".into());
     }
     let close_cut_after_chain = if ck.contains("std::iter::once(self.self_peer_id).chain(peers).take(K_VALUE.get()).collect()") {
@@ -329,53 +781,83 @@ pub fn generate(repo: &PathBuf) -> Result<String, String> {
     };
     let cmdf = parse_file(&repo.join("ant-networking/src/cmd.rs"))?;
     let hl = toks(&impl_fn(&cmdf, "SwarmDriver", None, "handle_local_cmd")?.block).replace(' ', "");
-    if !hl.contains("LocalSwarmCmd::GetClosestKLocalPeers{sender}=>{cmd_string=\"GetClosestKLocalPeers\";let_=sender.send(self.get_closest_k_value_local_peers());}") {
+    if!hl.contains("LocalSwarmCmd::GetClosestKLocalPeers{sender}=>{cmd_string=\"GetClosestKLocalPeers\";let_=sender.send(self.get_closest_k_value_local_peers());}") {
         return Err("handle_local_cmd: GetClosestKLocalPeers no longer answered with get_closest_k_value_local_peers()".into());
     }
 
     // ant-networking RecordStore::put
     let rsf = parse_file(&repo.join("ant-networking/src/record_store.rs"))?;
     let put = impl_fn(&rsf, "NodeRecordStore", Some("RecordStore"), "put")?;
-    let putb = toks(&put.block);
-    let put_refuses_at_limit = if has(&putb, "record . value . len () >= self . config . max_value_bytes") {
-        true
-    } else if has(&putb, "record . value . len () > self . config . max_value_bytes") {
-        false
-    } else {
-        return Err("RecordStore::put: size comparison not recognised".into());
+    let putb = text_of(&put.block);
+    let put_refuses_at_limit = {
+        let mut v = vec![];
+        for (l, op, r, _, e) in comparisons(&putb) {
+            let op = if l == "record.value.len()" && r == "self.config.max_value_bytes" {
+                op.clone()
+            } else if r == "record.value.len()" && l == "self.config.max_value_bytes" {
+                flip(&op).to_string()
+            } else {
+                continue;
+            };
+            v.push((op, block_after(&putb, e).contains("return Err(Error::ValueTooLarge)")));
+        }
+        match v.as_slice() {
+            [(op, true)] if op == ">=" => true,
+            [(op, true)] if op == ">" => false,
+            _ => return Err("RecordStore::put: size comparison not recognised".into()),
+        }
     };
-    let put_never_stores = !has(&putb, "put_verified") && !has(&putb, "records . insert") && !has(&putb, "records_cache");
+    let put_never_stores = !["put_verified(", "records.insert(", "records_cache.", "fs::write", "records_by_distance."].iter().any(|n| putb.contains(n));
     let mut always_forward: Vec<&str> = vec![];
+    let put_header_err_silent;
     {
-        // the arm `RecordKind::A | RecordKind::B => { debug!(..always be processed..) }`
-        struct Find(Vec<String>);
+        // `match RecordHeader::from_record(&record) { Ok(h) => match h.kind { A | B => {} .. }, Err(_) => return Ok(()) }`
+        struct Find {
+            empty_arms: Vec<Vec<String>>,
+            err_arm: Option<String>,
+        }
         impl<'ast> syn::visit::Visit<'ast> for Find {
-            fn visit_arm(&mut self, a: &'ast syn::Arm) {
-                let body = toks(&a.body);
-                if body.contains("shall always be processed") {
-                    let mut ks = vec![];
-                    if pat_kinds(&a.pat, &mut ks).is_ok() {
-                        self.0 = ks;
+            fn visit_expr_match(&mut self, m: &'ast syn::ExprMatch) {
+                let scrut = compact(&toks(&m.expr));
+                if scrut == "RecordHeader::from_record(&record)" {
+                    for a in &m.arms {
+                        if compact(&toks(&a.pat)).starts_with("Err(") {
+                            self.err_arm = Some(text_of(&a.body));
+                        }
                     }
                 }
-                syn::visit::visit_arm(self, a);
+                if scrut.ends_with(".kind") {
+                    for a in &m.arms {
+                        if text_of(&a.body) == "{}" {
+                            let mut ks = vec![];
+                            if pat_kinds(&a.pat, &mut ks).is_ok() {
+                                self.empty_arms.push(ks);
+                            }
+                        }
+                    }
+                }
+                syn::visit::visit_expr_match(self, m);
             }
         }
-        let mut f = Find(vec![]);
+        let mut f = Find { empty_arms: vec![], err_arm: None };
         syn::visit::Visit::visit_block(&mut f, &put.block);
-        if f.0.is_empty() {
+        if f.empty_arms.len() != 1 {
             return Err("RecordStore::put: always-forwarded arm not found".into());
         }
-        for k in &f.0 {
+        for k in &f.empty_arms[0] {
             let lk = KINDS.iter().find(|(r, _)| r == k).ok_or_else(|| format!("RecordStore::put: unknown kind {k}"))?.1;
             always_forward.push(lk);
         }
+        put_header_err_silent = match f.err_arm.as_deref() {
+            Some("{return Ok(());}") => true,
+            Some(b) if b.contains("return Err(") => false,
+            _ => return Err("RecordStore::put: handling of an unparseable header not recognised".into()),
+        };
     }
-    let put_header_err_silent = has(&putb, "Err (err) => { error ! (") && has(&putb, "return Ok (()) ;");
 
     s.push_str(&format!(
         "/-- checks performed by `payment_for_us_exists_and_is_still_valid`, in source order -/\ndef payCheckOrder : List PayStep := [{}]\n",
-        steps.iter().map(|(_, n)| format!(".{n}")).collect::<Vec<_>>().join(", ")
+        steps.iter().map(|n| format!(".{n}")).collect::<Vec<_>>().join(", ")
     ));
     let mut flag = |name: &str, doc: &str, v: bool| s.push_str(&format!("/-- {doc} -/\ndef {name} : Bool := {}\n", lean_bool(v)));
     for (n, d, v) in flags {
